@@ -160,6 +160,8 @@ func main() {
 	replayHex := flag.String("replay", "", "run the listed monitors on this one input (hex) and exit 1 if any fails")
 	replayOps := flag.String("replay-ops", "", "iterator op sequence for a C13 replay")
 	stream := flag.String("stream", "E5", "PRNG stream name")
+	printReps := flag.Bool("print-reps", false, "print one code point per class signature (comma separated) and exit")
+	specKinds := flag.String("spec-kinds", "fg,fw,fs,fl", "segmenters for the SPEC stage")
 	flag.Parse()
 
 	t0 := time.Now()
@@ -168,6 +170,14 @@ func main() {
 	ci = scanClasses()
 	initGen()
 	thorough := *tier == "thorough"
+	if *printReps {
+		var xs []string
+		for _, r := range ci.oneRepPerSig() {
+			xs = append(xs, fmt.Sprint(int(r)))
+		}
+		fmt.Println(strings.Join(xs, ","))
+		return
+	}
 
 	mons := map[string]monitor{"C05": monC05, "C08": monC08, "C09": monC09, "C10": monC10, "C11": monC11, "C12": monC12, "C14": monC14, "C15": monC15}
 
@@ -208,7 +218,7 @@ func main() {
 	var d *driver
 	needDriver := false
 	for _, s := range strings.Split(*stages, ",") {
-		if s == "E3" || s == "E4" || s == "E5" || s == "E6" {
+		if s == "E3" || s == "E4" || s == "E5" || s == "E6" || s == "SPEC" {
 			needDriver = true
 		}
 	}
@@ -239,6 +249,8 @@ func main() {
 			res.Stages = append(res.Stages, stageE5(d, cs, res.Distribution, onlyMap, thorough))
 		case "E6":
 			res.Stages = append(res.Stages, stageE6(d, *seed, *n6, *amb))
+		case "SPEC":
+			res.Stages = append(res.Stages, stageSpec(d, cs, strings.Split(*specKinds, ","), thorough))
 		case "":
 		default:
 			fatal("unknown stage %q", s)
